@@ -2,7 +2,296 @@ import Proofs.Lemmas.Chunks
 import Proofs.Lemmas.Worker
 import Proofs.Lemmas.Parent
 import Proofs.Lemmas.Match
+import Proofs.Lemmas.Total
 import Proofs.Audit
+
+/-!
+# C05 — collocating filesets equals collocating all their data, for any process count
+
+Property theorems only (helper lemmas live in `Proofs/Lemmas/*.lean`), about the model
+`Model/CollocFiles.lean` of `Collocator.collocate_filesets`.  The per-file-pair collocation
+(`Collocator.collocate`) is opaque: its pair-level correctness is property C04 and enters
+`C05_total` as the hypothesis `hcoll`.
+-/
+
 open CFiles
-theorem C05_stub : chunks 0 ([] : List Nat) = none := rfl
-assert_axioms C05_stub
+
+/-! ## array_split -/
+
+/-- **C05_chunks_partition** — for every number of sections `k ≥ 1` the chunks of
+`np.array_split` are contiguous pieces whose concatenation is the match list, there are exactly
+`k` of them, their sizes differ by at most one (`⌊n/k⌋` or `⌊n/k⌋+1`), and none is empty when
+`k ≤ n` (which `processes = min(processes, len(matches))` guarantees). -/
+theorem C05_chunks_partition {α : Type} (k : Nat) (hk : 1 ≤ k) (ms : List α) :
+    ∃ cs, chunks k ms = some cs ∧ cs.flatten = ms ∧ cs.length = k ∧
+      (∀ c ∈ cs, c.length = ms.length / k ∨ c.length = ms.length / k + 1) ∧
+      (k ≤ ms.length → ∀ c ∈ cs, c ≠ []) := by
+  have hk0 : k ≠ 0 := by omega
+  refine ⟨splitSizes (chunkSizes ms.length k) ms, by simp [chunks, hk0], ?_, ?_, ?_, ?_⟩
+  · exact flatten_splitSizes _ _ (by rw [sum_chunkSizes _ _ (by omega)])
+  · rw [length_splitSizes, length_chunkSizes _ _ (by omega)]
+  · intro c hc
+    have hm := map_length_splitSizes (chunkSizes ms.length k) ms (sum_chunkSizes _ _ (by omega))
+    have : c.length ∈ chunkSizes ms.length k := by
+      rw [← hm]; exact List.mem_map.mpr ⟨c, hc, rfl⟩
+    exact mem_chunkSizes this
+  · intro hkn c hc hnil
+    have hm := map_length_splitSizes (chunkSizes ms.length k) ms (sum_chunkSizes _ _ (by omega))
+    have : c.length ∈ chunkSizes ms.length k := by
+      rw [← hm]; exact List.mem_map.mpr ⟨c, hc, rfl⟩
+    have hq : 1 ≤ ms.length / k := (Nat.one_le_div_iff (by omega)).mpr hkn
+    rcases mem_chunkSizes this with h | h <;> simp [hnil] at h <;> omega
+
+/-- zero sections is the `ValueError` of numpy -/
+theorem C05_chunks_zero {α : Type} (ms : List α) : chunks 0 ms = none := rfl
+
+/-! ## worker process -/
+
+/-- **C05_worker_flush** — for every bundle mode (None, primary, daily), every list of
+flattened matches without a crash (matches may be skipped because of unreadable files):
+the bundles a worker puts on the queue, concatenated, are exactly its non-`None`
+collocation results in order, each once — the tail flush included; no crash marker is put
+(in particular `matches[processed]` never raises); with bundling every bundle is a non-empty
+run of one tag and consecutive bundles have different tags (maximal runs); without bundling
+every put holds exactly one result. -/
+theorem C05_worker_flush (b : Bundle) (jobs : List Job) (hc : ∀ j ∈ jobs, j.out ≠ .crash) :
+    ((bundlesOf (workerItems b jobs)).flatten.map (·.r) = produced jobs) ∧
+    Item.crashed ∉ workerItems b jobs ∧
+    (b ≠ .none →
+      (∀ c ∈ bundlesOf (workerItems b jobs), c ≠ [] ∧ ∀ x ∈ c, ∀ y ∈ c, x.tag = y.tag) ∧
+      (∀ i (h : i + 1 < (bundlesOf (workerItems b jobs)).length),
+        ∀ x ∈ (bundlesOf (workerItems b jobs))[i], ∀ y ∈ (bundlesOf (workerItems b jobs))[i + 1],
+          x.tag ≠ y.tag)) ∧
+    (b = .none → ∀ c ∈ bundlesOf (workerItems b jobs), c.length = 1) := by
+  have hl := nYield_le_length jobs
+  refine ⟨?_, worker_no_crash_item b jobs [] none jobs hc hl, ?_, ?_⟩
+  · by_cases hb : b = .none
+    · subst hb; exact emitted_worker_none jobs none jobs hc hl
+    · have := emitted_worker_bundle b hb jobs [] none jobs hc hl
+      simpa [emitted, workerItems] using this
+  · intro hb
+    have hinv : CacheInv [] none := ⟨by simp, by simp⟩
+    refine ⟨bundles_uniform b hb jobs [] none jobs hinv, ?_⟩
+    exact List.isChain_iff_getElem.mp (bundles_chain b hb jobs [] none jobs hinv)
+  · intro hb
+    subst hb
+    exact bundles_none_single jobs none jobs
+
+/-- **C05_worker_crash** — an exception while a match is processed (unreadable file without
+`skip_file_errors`) makes the worker put the crash marker as its last object; the bundle
+cached so far and all later matches are not delivered (the property makes no claim then). -/
+theorem C05_worker_crash (b : Bundle) (pre post : List Job) (j : Job) (hj : j.out = .crash)
+    (hc : ∀ x ∈ pre, x.out ≠ .crash) :
+    ∃ is, workerItems b (pre ++ j :: post) = is ++ [.crashed] :=
+  worker_crash b _ [] none pre post j hj hc
+
+/-- **C05_skip_errors** (worker level) — with `skip_file_errors` a worker never crashes on an
+unreadable file, and what it delivers are exactly the results of its matches that do not
+involve an unreadable file. -/
+theorem C05_skip_errors (b : Bundle) (bad1 bad2 : Nat → Bool) (coll : Nat → Nat → Option Result)
+    (flat : List (Nat × Nat)) :
+    let jobs := mkJobs (outcome true bad1 bad2 coll) flat
+    Item.crashed ∉ workerItems b jobs ∧
+    (bundlesOf (workerItems b jobs)).flatten.map (·.r) =
+      (flat.filter (fun m => !(bad1 m.1 || bad2 m.2))).filterMap (fun m => coll m.1 m.2) := by
+  intro jobs
+  have hc : ∀ j ∈ jobs, j.out ≠ .crash := by
+    intro j hj
+    simp only [jobs, mkJobs, List.mem_map] at hj
+    obtain ⟨m, _, rfl⟩ := hj
+    simp only [outcome]
+    split <;> simp
+  obtain ⟨h1, h2, _⟩ := C05_worker_flush b jobs hc
+  refine ⟨h2, h1.trans ?_⟩
+  exact produced_mkJobs_skip bad1 bad2 coll flat
+
+/-! ## parent: bounded queue, drain loop, every interleaving -/
+
+/-- **C05_parent_collects_all** — for every number `n` of worker processes (queue bound
+`maxsize = n`), every assignment of put-sequences to the workers and *every* interleaving of
+puts, feeder-thread writes, process exits and parent steps (including stale `is_alive()`
+answers inside the filter): when the parent leaves `while running:` it has received from every
+worker exactly the sequence that worker put — nothing lost (no object stays in the queue after
+the last child died: the filter-then-drain order of the loop suffices, no extra drain is
+needed), nothing twice, per-producer order kept. -/
+theorem C05_parent_collects_all (n : Nat) (items : Nat → List Item)
+    (hn : ∀ w, n ≤ w → items w = []) (evs : List Event) (s : PState)
+    (hr : run (initState n items) evs = some s) (hd : s.pc = .done) :
+    (∀ w, gotFrom s w = items w) ∧
+    (s.yielded.map (·.2)).Perm ((List.range n).flatMap items) := by
+  have hi := inv_run evs (inv_init n items hn) hr
+  have hg := inv_done hi hd
+  refine ⟨hg, ?_⟩
+  have hkeys : ∀ x ∈ s.yielded, x.1 < n := by
+    intro x hx
+    by_contra hlt
+    have h0 := hn x.1 (Nat.le_of_not_lt hlt)
+    have hmem : x.2 ∈ gotFrom s x.1 := by
+      simp only [gotFrom, List.mem_map, List.mem_filter]
+      exact ⟨x, ⟨hx, by simp⟩, rfl⟩
+    rw [hg x.1, h0] at hmem
+    cases hmem
+  have := perm_by_key s.yielded n hkeys
+  refine this.trans ?_
+  have e : ∀ w, (s.yielded.filter (fun x => x.1 == w)).map (·.2) = items w := hg
+  simp only [e]
+  exact List.Perm.refl _
+
+/-- **C05_parent_never_stuck** — in every reachable state before `done` the parent has an
+enabled step (its blocking `get` is only reached when an object is in the pipe): the loop
+cannot deadlock on the bounded queue. -/
+theorem C05_parent_never_stuck (n : Nat) (items : Nat → List Item)
+    (hn : ∀ w, n ≤ w → items w = []) (evs : List Event) (s : PState)
+    (hr : run (initState n items) evs = some s) (hd : s.pc ≠ .done) :
+    ∃ s', step s (.parent []) = some s' :=
+  inv_parent_enabled (inv_run evs (inv_init n items hn) hr) hd
+
+/-! ## file level -/
+
+/-- **C05_match_complete** — if a point `a` of primary file `i` and a point `b` of secondary
+file `j` (each inside its file's coverage) lie in `[start, end]` and are closer in time than
+`max_interval`, then `match` succeeds and pairs file `i` with file `j`; and every file pair
+occurs at most once among the flattened matches — so, points being stored in exactly one
+file each, every point pair is looked at in exactly one file pair. -/
+theorem C05_match_complete (files1 files2 : List (Int × Int)) (start end_ mi : Int)
+    (i j : Nat) (hi : i < files1.length) (hj : j < files2.length) (ta tb : Int)
+    (ha : files1[i].1 ≤ ta ∧ ta ≤ files1[i].2) (hb : files2[j].1 ≤ tb ∧ tb ≤ files2[j].2)
+    (hia : start ≤ ta ∧ ta ≤ end_) (hib : start ≤ tb ∧ tb ≤ end_) (hdt : |ta - tb| < mi) :
+    ∃ ms, matchFiles files1 files2 start end_ mi = .ok ms ∧
+      (i, j) ∈ flattenMatches ms ∧ (flattenMatches ms).Nodup := by
+  have hdt' := abs_lt.mp hdt
+  have m1 : i ∈ findIdx (start - mi) (end_ + mi) files1 :=
+    mem_findIdx.mpr ⟨hi, by omega, by omega⟩
+  have m2 : j ∈ findIdx (start - mi) (end_ + mi) files2 :=
+    mem_findIdx.mpr ⟨hj, by omega, by omega⟩
+  have h1 : findIdx (start - mi) (end_ + mi) files1 ≠ [] := List.ne_nil_of_mem m1
+  have h2 : findIdx (start - mi) (end_ + mi) files2 ≠ [] := List.ne_nil_of_mem m2
+  refine ⟨_, matchFiles_ok h1 h2, ?_, nodup_flatten_matchFiles (matchFiles_ok h1 h2)⟩
+  rw [mem_flatten_matchFiles (matchFiles_ok h1 h2)]
+  refine ⟨m1, m2, ?_⟩
+  simp only [partner, List.getElem?_eq_getElem hi, List.getElem?_eq_getElem hj, Bool.and_eq_true,
+    decide_eq_true_eq]
+  constructor <;> omega
+
+/-- `match` raises `NoFilesError` exactly when one fileset has no file in the widened period -/
+theorem C05_match_nofiles (files1 files2 : List (Int × Int)) (start end_ mi : Int) :
+    matchFiles files1 files2 start end_ mi = .error .noFiles ↔
+      (findIdx (start - mi) (end_ + mi) files1 = [] ∨ findIdx (start - mi) (end_ + mi) files2 = []) := by
+  constructor
+  · intro h
+    by_contra hne
+    simp only [not_or] at hne
+    rw [matchFiles_ok hne.1 hne.2] at h
+    cases h
+  · exact matchFiles_error
+
+/-! ## the whole pipeline -/
+
+/-- **C05_pipeline_delivers** — for every process count (`None`, or any `k ≥ 1`), every
+bundle mode and every outcome table without a crash: the pipeline starts `min(k, #matches)`
+workers and the results inside all bundles of all workers, in worker order, are exactly the
+non-`None` results of the flattened match list — independent of `k` and of the bundle mode. -/
+theorem C05_pipeline_delivers (b : Bundle) (oc : Nat → Nat → Outcome) (ms : List (Nat × List Nat))
+    (processes : Option Nat) (hp : ∀ k, processes = some k → 1 ≤ k)
+    (hc : ∀ m ∈ flattenMatches ms, oc m.1 m.2 ≠ .crash) :
+    ∃ ws, pipeline b oc ms processes = .ok ws ∧
+      ws.flatMap (fun is => (bundlesOf is).flatten.map (·.r)) = produced (mkJobs oc (flattenMatches ms)) ∧
+      (∀ is ∈ ws, Item.crashed ∉ is) := by
+  exact pipeline_delivers b oc ms processes hp hc
+
+/-- **C05_pipeline_zero_processes** — `processes = 0` with at least one match is numpy's
+`ValueError`; no matches yields nothing whatever `processes` is. -/
+theorem C05_pipeline_edge (b : Bundle) (oc : Nat → Nat → Outcome) (processes : Option Nat)
+    (m : Nat × List Nat) (ms : List (Nat × List Nat)) :
+    pipeline b oc [] processes = .ok [] ∧
+    pipeline b oc (m :: ms) (some 0) = .error .valueError := by
+  constructor
+  · simp [pipeline, plan]
+  · simp [pipeline, plan, chunks, procCount]
+
+/-- **C05_total** — the multiset of collocations over everything the parent yields equals
+the collocations between the *complete* data of the two filesets in the period:
+
+* files `i < n1` / `j < n2` with coverage `cov1 i` / `cov2 j` and points `pts1 i` / `pts2 j`,
+  every point inside its file's coverage (each point is stored in exactly one file: the
+  complete data is the concatenation of the files);
+* `hcoll` (property C04): the opaque per-file-pair result holds exactly the pairs of points of
+  the two files that are `near`, closer in time than `mi > 0` and inside `[start, end]`;
+* no crash (no unreadable file, or `skip_file_errors` — see `C05_skip_errors`);
+
+then for every process count `k ≥ 1`/`None`, every bundle mode, every interleaving `evs` of
+the queue system that ends with the parent leaving its loop, the pairs inside all yielded
+bundles are a permutation of `pointPairs` over the concatenated data.  The right-hand side does
+not mention processes, bundle mode, schedule, or how the data is split into files. -/
+theorem C05_total (near : Nat → Nat → Bool) (mi start end_ : Int)
+    (n1 n2 : Nat) (cov1 cov2 : Nat → Int × Int) (pts1 pts2 : Nat → List Pt)
+    (hcov1 : ∀ i < n1, ∀ a ∈ pts1 i, (cov1 i).1 ≤ a.t ∧ a.t ≤ (cov1 i).2)
+    (hcov2 : ∀ j < n2, ∀ c ∈ pts2 j, (cov2 j).1 ≤ c.t ∧ c.t ≤ (cov2 j).2)
+    (coll : Nat → Nat → Option Result)
+    (hcoll : ∀ i j, (resultPairs (coll i j)).Perm (pointPairs near mi start end_ (pts1 i) (pts2 j)))
+    (b : Bundle) (processes : Option Nat) (hp : ∀ k, processes = some k → 1 ≤ k)
+    (ms : List (Nat × List Nat))
+    (hm : matchFiles ((List.range n1).map cov1) ((List.range n2).map cov2) start end_ mi = .ok ms)
+    (ws : List (List Item))
+    (hw : pipeline b (outcome false (fun _ => false) (fun _ => false) coll) ms processes = .ok ws)
+    (evs : List Event) (s : PState)
+    (hr : run (initState ws.length (fun w => ws.getD w [])) evs = some s) (hd : s.pc = .done) :
+    (itemsPairs (s.yielded.map (·.2))).Perm
+      (pointPairs near mi start end_ ((List.range n1).flatMap pts1) ((List.range n2).flatMap pts2)) := by
+  exact total_perm near mi start end_ n1 n2 cov1 cov2 pts1 pts2 hcov1 hcov2 coll hcoll b processes hp
+    ms hm ws hw evs s hr hd
+
+/-! ## Non-vacuity and executable sanity tests of the model (tests, not theorems) -/
+
+-- chunks as numpy: array_split(range(8), 3) = [0,1,2],[3,4,5],[6,7]
+#guard chunks 3 (List.range 8) = some [[0, 1, 2], [3, 4, 5], [6, 7]]
+#guard chunks 4 (List.range 4) = some [[0], [1], [2], [3]]
+#guard chunks 0 (List.range 4) = none
+
+private def r1 : Result := { pairs := [(1, 10)], day := 5 }
+private def r2 : Result := { pairs := [(2, 20), (2, 21)], day := 5 }
+private def r3 : Result := { pairs := [(3, 30)], day := 6 }
+private def jobsEx : List Job :=
+  [⟨0, 0, .res (some r1)⟩, ⟨0, 1, .res none⟩, ⟨0, 2, .res (some r2)⟩, ⟨1, 2, .skipped⟩,
+   ⟨2, 2, .res (some r3)⟩]
+
+-- hypotheses of C05_worker_flush are satisfiable by a non-trivial job list
+example : ∀ j ∈ jobsEx, j.out ≠ .crash := by decide
+-- bundle=primary: r1,r2 of primary 0 in one bundle (flushed when the primary changes);
+-- NB after the skipped match `matches[processed]` lags: r3 is tagged with primary 1
+#guard workerItems .primary jobsEx =
+  [.progress, .result [⟨.prim 0, r1⟩, ⟨.prim 0, r2⟩], .result [⟨.prim 1, r3⟩]]
+#guard workerItems .daily jobsEx =
+  [.progress, .result [⟨.day 5, r1⟩, ⟨.day 5, r2⟩], .result [⟨.day 6, r3⟩]]
+#guard (workerItems .none jobsEx).length = 4
+-- a crash drops the cached bundle
+#guard workerItems .primary [⟨0, 0, .res (some r1)⟩, ⟨0, 1, .crash⟩, ⟨1, 1, .res (some r3)⟩] = [.crashed]
+
+-- parent: a complete schedule of 2 workers with one object each; the second worker dies
+-- between the parent's `empty()` test and its `running` filter — nothing is lost
+private def itemsEx : Nat → List Item := fun w =>
+  if w < 2 then [.result [⟨.prim w, r1⟩]] else []
+private def schedEx : List Event :=
+  [.parent [], .parent [],            -- while running: [0,1]; filter: both alive
+   .put 0, .feed 0,
+   .parent [], .parent [],            -- not empty -> get
+   .die 0,
+   .parent [],                        -- empty() = True  -> back to `while running`
+   .put 1, .feed 1, .die 1,           -- the last worker puts and dies right now
+   .parent [], .parent [],            -- while running (stale [0,1]) ; filter -> []
+   .parent [], .parent [], .parent [],   -- drain: not empty -> get -> empty
+   .parent []]                        -- while running: [] -> done
+#guard (run (initState 2 itemsEx) schedEx).map (fun s => (s.pc, s.yielded.length)) = some (.done, 2)
+example : ∀ w, 2 ≤ w → itemsEx w = [] := by
+  intro w hw; simp [itemsEx]; omega
+
+-- match: hypotheses of C05_match_complete are satisfiable
+#guard matchFiles [(0, 10), (20, 30), (50, 60)] [(5, 6), (25, 40), (100, 200)] 0 300 0
+    = .ok [(0, [0]), (1, [1])]
+#guard matchFiles [(0, 10)] [(12, 20)] 0 300 5 = .ok [(0, [0])]
+#guard matchFiles [(0, 10)] [(500, 600)] 0 300 5 = .error .noFiles
+example : ((3 : Int) ≤ 9 ∧ (9 : Int) ≤ 10) ∧ |(9 : Int) - 13| < 5 := by decide
+
+assert_axioms C05_chunks_partition C05_chunks_zero C05_worker_flush C05_worker_crash
+  C05_skip_errors C05_parent_collects_all C05_parent_never_stuck C05_match_complete
+  C05_match_nofiles C05_pipeline_delivers C05_pipeline_edge C05_total
